@@ -245,17 +245,17 @@ impl Report {
         for l in lines.iter() {
             println!("{}", l);
         }
+        for m in self.machinery_errors.iter() {
+            eprintln!("MACHINERY-ERROR: {}", m);
+        }
+        if !unlisted.is_empty() {
+            // a violation was demonstrated; machinery trouble elsewhere does not hide it
+            return 1;
+        }
         if !self.machinery_errors.is_empty() {
-            for m in self.machinery_errors.iter() {
-                eprintln!("MACHINERY-ERROR: {}", m);
-            }
             return 2;
         }
-        if unlisted.is_empty() {
-            0
-        } else {
-            1
-        }
+        0
     }
 }
 
